@@ -252,3 +252,71 @@ Section GroupBy.
     apply zsum_members; [apply dedupe_NoDup|]. intros a Ha. apply dedupe_In. now apply in_map.
   Qed.
 End GroupBy.
+
+(* ------------------------------------------------------------------ _conforming_sum is a sum *)
+(* i-th component of a value: a scalar counts in every component, None counts 0 *)
+Definition vmeas (i : nat) (v : value) : Z :=
+  match v with VNum x => num_n x | VNone => 0 | VArr _ xs => nth i xs 0 end.
+Definition in_range (i : nat) (v : value) : Prop :=
+  match v with VArr _ xs => (i < length xs)%nat | _ => True end.
+
+Lemma nth_map_lt {X} (f : X -> Z) l i d : (i < length l)%nat -> nth i (map f l) 0 = f (nth i l d).
+Proof.
+  revert i. induction l as [|x l IH]; intros i H; cbn [length] in H; [lia|].
+  destruct i; cbn [nth map]; [reflexivity|]. apply IH. lia.
+Qed.
+Lemma nth_zip_add xs ys i :
+  length xs = length ys -> (i < length xs)%nat -> nth i (zip_add xs ys) 0 = nth i xs 0 + nth i ys 0.
+Proof.
+  unfold zip_add. revert ys i. induction xs as [|x xs IH]; intros [|y ys] i Hl Hi; cbn [length] in *; try lia.
+  destruct i; cbn [combine map nth fst snd]; [reflexivity|]. apply IH; lia.
+Qed.
+Lemma zip_add_length xs ys : length xs = length ys -> length (zip_add xs ys) = length xs.
+Proof.
+  unfold zip_add. intros H. rewrite map_length, combine_length. lia.
+Qed.
+
+Lemma value_add_meas i a v r :
+  value_add a v = Ok r -> in_range i r ->
+  vmeas i r = vmeas i a + vmeas i v /\ in_range i a.
+Proof.
+  destruct v as [b| |g ys]; cbn [value_add].
+  - destruct a as [a| |f xs]; [| discriminate |].
+    + intros H _. inversion H. subst. cbn. split; [reflexivity | exact I].
+    + destruct (negb f && num_isf b); [discriminate|]. intros H Hr. inversion H. subst.
+      cbn [in_range vmeas] in *. rewrite map_length in Hr. split; [|exact Hr].
+      now rewrite (nth_map_lt _ _ _ 0 Hr).
+  - intros H Hr. inversion H. subst. cbn [vmeas]. split; [lia | exact Hr].
+  - destruct a as [a| |f xs]; [| discriminate |].
+    + intros H Hr. inversion H. subst. cbn [in_range vmeas] in *. rewrite map_length in Hr.
+      split; [|exact I]. now rewrite (nth_map_lt _ _ _ 0 Hr).
+    + destruct (Nat.eqb (length xs) (length ys)) eqn:E; cbn [negb]; [|discriminate].
+      apply Nat.eqb_eq in E. destruct (negb f && g); [discriminate|]. intros H Hr. inversion H. subst.
+      cbn [in_range vmeas] in *. rewrite (zip_add_length _ _ E) in Hr. split; [|exact Hr].
+      now apply nth_zip_add.
+Qed.
+
+Lemma sum_from_meas i vals : forall a r,
+  sum_from a vals = Ok r -> in_range i r ->
+  vmeas i r = vmeas i a + zsum (map (vmeas i) vals) /\ in_range i a.
+Proof.
+  induction vals as [|v vals IH]; intros a r H Hr; cbn [sum_from map zsum] in *.
+  - inversion H. subst. split; [lia | exact Hr].
+  - destruct (value_add a v) as [t'|] eqn:E; [|discriminate].
+    destruct (IH _ _ H Hr) as [E1 R1]. destruct (value_add_meas i _ _ _ E R1) as [E2 R2].
+    split; [lia | exact R2].
+Qed.
+Theorem conforming_sum_meas i vals r :
+  conforming_sum vals = Ok r -> in_range i r -> vmeas i r = zsum (map (vmeas i) vals).
+Proof.
+  intros H Hr. destruct (sum_from_meas i vals _ _ H Hr) as [E _]. cbn [vzero vmeas num_n] in E. lia.
+Qed.
+(* scalar-only inputs never fail and give a scalar *)
+Definition scalar_or_none (v : value) : bool := match v with VArr _ _ => false | _ => true end.
+Lemma sum_from_scalar vals : forall a, forallb scalar_or_none vals = true ->
+  exists x, sum_from (VNum a) vals = Ok (VNum x).
+Proof.
+  induction vals as [|v vals IH]; intros a H; cbn [sum_from]; [eauto|].
+  cbn [forallb] in H. apply andb_prop in H. destruct H as [Hv H].
+  destruct v; cbn [value_add]; try discriminate; auto.
+Qed.
